@@ -212,6 +212,8 @@ def native_attr(engine, run, obj, attr):
             return SShape(obj.space)
         if attr == "ndim":
             return z3.Int(f"ndim_{obj.space}")
+        if attr == "size":
+            return z3.Int(f"size_{obj.space}")
         if attr == "astype":
             def _astype(run, a, k):
                 return cell_astype(run, obj, a[0] if a else k.get("dtype"))
@@ -1147,3 +1149,35 @@ def nb_jit(engine, run, a, k):
 @external("numpy.isclose")
 def np_isclose(engine, run, a, k):
     return np_allclose(engine, run, a, k)
+
+
+class SRecArray:
+    """np.recarray(n, dtype=...) -- uninitialised structured array; `[0]` yields a record whose
+    fields hold arbitrary (fresh) values."""
+
+    def __init__(self, dtype):
+        self.dtype = dtype
+
+    def sym_getitem(self, run, idx):
+        fields = {}
+        for ent in self.dtype:
+            name = ent[0]
+            if len(ent) == 2 or not ent[2]:
+                fields[name] = run.fresh_real(f"uninit_{name}")
+            else:
+                (n,) = ent[2]
+                c = const_of(n)
+                if c is not None:
+                    fields[name] = SArr([run.fresh_real(f"uninit_{name}{j}") for j in range(int(c))])
+                else:
+                    f = z3.Function(f"uninit_{name}!{next(run.counter)}", z3.IntSort(), z3.RealSort())
+                    fields[name] = SSeq(n, lambda i, f=f: f(to_z3(i)), name, kind="array")
+        return SRec(fields, "recarray[0]")
+
+
+@external("numpy.recarray")
+def np_recarray(engine, run, a, k):
+    dt = k.get("dtype", a[1] if len(a) > 1 else None)
+    if not isinstance(dt, list):
+        raise Undecided("recarray with non-literal dtype")
+    return SRecArray(dt)
